@@ -10,7 +10,7 @@ from ..spaces import all_res, kinds_rotating, prog_of, shard_iter, single_select
 from .c03 import up_closed_sets
 
 ID = "C09"
-BUDGET = {"quick": 100, "thorough": 2400}
+BUDGET = {"quick": 100, "thorough": 900}
 MONITORS = [mon_c09]
 
 
@@ -127,8 +127,18 @@ def nontrivial(view):
     return None
 
 
+def all_cases(tier):
+    import itertools
+
+    from ..spaces import cross_families, foreign_quick_cases
+    its = [cases(tier), cross_families(tier)]
+    if tier != "quick":
+        its.append(foreign_quick_cases("c09"))
+    return itertools.chain(*its)
+
+
 def run_shard(tier, k, n, acc):
-    for c in shard_iter(cases(tier), k, n, acc):
+    for c in shard_iter(all_cases(tier), k, n, acc):
         if c.get("special"):
             cycles_case(acc, c)
         else:
